@@ -1,3 +1,4 @@
+import re
 """C17 — neighbour candidates are enumerated completely and in order of distance (structural clauses)."""
 from .. import interp as I, nf, dtab
 from ..nf import RF, as_rf
@@ -13,7 +14,8 @@ META = {
         'R1': 'min-first: the wrapped search keeps its frontier in a std BinaryHeap (max-heap) whose element order compares other.distance with self.distance '
               '(reversed natural order), so pop() yields the smallest key; PartialOrd/PartialEq are consistent with Ord',
         'R2': 'keys: a leaf is keyed by |q + s - g|^2, which equals |q - (g + reported shift)|^2, the position the builder uses; heap entries carry the key computed '
-              'for their own node and the shift they were inserted under; a popped leaf is reported with its own key and shift; a popped parent is expanded under its own shift',
+              'for their own node and the shift they were inserted under; a popped leaf is reported with its own key and shift; a popped parent is expanded under its own shift; the search step is decided by the kind of the popped entry alone '
+              '(always expand a parent, always report a leaf, end only on an empty frontier: no cut-off on the key)',
         'R3': 'envelope bound: a parent is keyed by sum_c (clamp(q_c + s_c, lo_c, hi_c) - q_c - s_c)^2 with all four quantities of the same axis; at lo = hi = g it equals the leaf key '
               '(hence a lower bound for every leaf inside the envelope)',
         'R4': 'image enumeration (C06.R1): every root child under each of the 3^d lattice shifts, once',
@@ -218,6 +220,19 @@ def r2(ctx, F, rule, sfx):
     ctx.check(rule, 'leaf-key' + sfx, key == want, repr(key)[:120], '|q + s - g|^2', where(le), key_extra='leaf')
     ctx.check(rule, 'leaf-key-is-distance-to-builder-position' + sfx, key == want2, 'key - |q - (g - s)|^2 = %r' % (key - want2,), '0 (reported shift is -s, C03.R4)', where(le), key_extra='leaf-builder')
     new, eh, nx = wrapped(F)
+    # extend_heap pushes one entry per child
+    ip = I.Interp(F)
+    me = I.Sym(nf.sym_atom('it'), 'rtree_nn::RTreeWrappingNearestNeighbourIter<Generator>')
+    children = I.Sym(nf.sym_atom('children'), '&[rstar::RTreeNode<voronoi::generator::Generator>]')
+    ip.call_body(eh, [ip.ref_to(me, eh['locals'][1]['ty'], mut=True), children, I.arr(list(S))])
+    ctx.evaluations += ip.evaluations
+    ext = [e for e in ip.events if e.callee and e.callee.endswith('::extend') and e.body is eh]
+    ok = False
+    if len(ext) == 1:
+        ch, src = stream_chain(ext[0].fargs[1])
+        heap_field = heap_elem_type(F)[1]['name']
+        ok = [n for n, _ in ch if n != 'rev'] in (['map', 'iter'], ['filter_map', 'iter']) and repr(src) == 'children' and repr(ext[0].fargs[0]).endswith('it.' + heap_field)     # (the heap orders the entries, not the insertion)
+    ctx.check(rule, 'one-entry-per-child' + sfx, ok, 'extend calls: %d' % len(ext), 'self.nodes.extend(children.iter().map(entry))', where(eh), key_extra='extend')
     cl = [c_ for c_ in F.closures_of(eh) if '::{closure' not in c_['path'][len(eh['path']) + 2:].split('}', 1)[-1]]      # closures defined directly in extend_heap
     if len(cl) != 1:
         raise AnalysisIncomplete('closures in extend_heap: %d' % len(cl))
@@ -272,19 +287,6 @@ def r2(ctx, F, rule, sfx):
         okp, pk = (okp, pk) if okp else sp
     ctx.check(rule, 'leaf-entry-key' + sfx, okl, lk[-150:], 'leaf.wrapping_distance_2(query_point, shift)', w, key_extra='leaf-entry')
     ctx.check(rule, 'parent-entry-key' + sfx, okp, pk[-150:], 'parent.envelope().wrapping_distance_2(query_point, shift)', w, key_extra='parent-entry')
-    # extend_heap pushes one entry per child
-    ip = I.Interp(F)
-    me = I.Sym(nf.sym_atom('it'), 'rtree_nn::RTreeWrappingNearestNeighbourIter<Generator>')
-    children = I.Sym(nf.sym_atom('children'), '&[rstar::RTreeNode<voronoi::generator::Generator>]')
-    ip.call_body(eh, [ip.ref_to(me, eh['locals'][1]['ty'], mut=True), children, I.arr(list(S))])
-    ctx.evaluations += ip.evaluations
-    ext = [e for e in ip.events if e.callee and e.callee.endswith('::extend') and e.body is eh]
-    ok = False
-    if len(ext) == 1:
-        ch, src = stream_chain(ext[0].fargs[1])
-        heap_field = heap_elem_type(F)[1]['name']
-        ok = [n for n, _ in ch if n != 'rev'] in (['map', 'iter'], ['filter_map', 'iter']) and repr(src) == 'children' and repr(ext[0].fargs[0]).endswith('it.' + heap_field)     # (the heap orders the entries, not the insertion)
-    ctx.check(rule, 'one-entry-per-child' + sfx, ok, 'extend calls: %d' % len(ext), 'self.nodes.extend(children.iter().map(entry))', where(eh), key_extra='extend')
     # the search step
     ip = I.Interp(F, no_inline=[eh['path']])
     v, _ = ip.call_body(nx, [ip.ref_to(me, nx['locals'][1]['ty'], mut=True)])
@@ -308,6 +310,16 @@ def r2(ctx, F, rule, sfx):
     evs = [e for e in ip.events if e.callee == eh['path']]
     ok = len(evs) == 1 and repr(evs[0].fargs[1]) == 'call:rstar::ParentNode::children(%s.node.Parent.0)' % cur and repr(evs[0].fargs[2]) == cur + '.shift'
     ctx.check(rule, 'popped-parent-expanded-under-own-shift' + sfx, ok, '%s' % ([repr(a)[-60:] for a in evs[0].fargs[1:]] if evs else 'no expansion'), 'extend_heap(children of the popped node, its shift)', where(nx), key_extra='expand')
+    # ... and the step is decided by the KIND of the popped entry alone: a parent is always expanded, a leaf always reported, the stream ends only
+    # when the frontier is empty — no cut-off on the key, no bound on the number of steps (every generator and every image is visited, however far)
+    popr = re.escape(repr(I.frozen(pop[0].result)))
+    kind = re.compile(r'^\(discr\(%s(\.Some\.0\.node)?\) (==|!=) \d\)$' % popr)
+    foreign = []
+    for g in [g for e in evs for g in e.guard] + [c for conds, _leaf in cases(v) for c in conds]:
+        for l in dtab.b_leaves(g).values():
+            if not kind.match(repr(l)):
+                foreign.append(repr(l)[:100])
+    ctx.check(rule, 'search-step-decided-by-entry-kind-alone' + sfx, not foreign, sorted(set(foreign))[:3] or 'pop() is Some / node is Parent | Leaf', 'expansion, report and end of the stream depend on nothing but: frontier empty? parent or leaf?', where(nx), key_extra='step-conditions')
 
 
 def r3(ctx, F, rule, sfx):
